@@ -260,6 +260,23 @@ def apply_sections(unit, text, d, fn_name, what):
     return text
 
 
+def expand_rn(tpl):
+    """template sugar: rn!(a; b; c; tail)  ==>  a + (b + (c + tail))   (right-nested concatenation)"""
+    while True:
+        i = tpl.find('rn!(')
+        if i < 0:
+            return tpl
+        m = rp.mask(tpl)
+        op = i + 3
+        cl = rp.match_bracket(m, op)
+        parts = rp.split_top(tpl[op + 1:cl], ';')
+        parts = [p for p in parts if p.strip()]
+        expr = parts[-1]
+        for p in reversed(parts[:-1]):
+            expr = f'{p} + ({expr})'
+        tpl = tpl[:i] + '(' + expr + ')' + tpl[cl + 1:]
+
+
 def process(unit_name, tpl_path=None, out_dir=None):
     tpl_path = tpl_path or os.path.join(VERIF, 'units', unit_name + '.rs.tpl')
     out_dir = out_dir or os.path.join(VERIF, 'build')
@@ -290,6 +307,7 @@ def process(unit_name, tpl_path=None, out_dir=None):
         return mm.group(0)
     for _ in range(3):
         tpl = DIRECTIVE_RE.sub(inc, tpl)
+    tpl = expand_rn(tpl)
     mu = re.search(r'//@\s*unit\s+(\S+)\s+props=(\S+)', tpl)
     if mu:
         unit.props = mu.group(2).split(',')
@@ -321,7 +339,8 @@ def process(unit_name, tpl_path=None, out_dir=None):
             (fs, fh, fe) = rp.find_one(src, m, 'fn', a['name'], region, level, what=what)
             real_line = src.count('\n', 0, fs) + 1
             text = rp.strip_comments(src[fs:fe])
-            text, log = rw.apply(text, ['R6'] + d['uses'], what)
+            r6 = 'R6:trait' if (' for ' in a.get('impl', '')) else 'R6'
+            text, log = rw.apply(text, [r6, 'R19'] + d['uses'], what)
             unit.rewrites += log
             left = rw.unrouted_allocations(text)
             if left:
@@ -331,8 +350,16 @@ def process(unit_name, tpl_path=None, out_dir=None):
                 text = re.sub(r'\bfn\s+' + re.escape(name) + r'\b', 'fn ' + a['rename'], text, count=1)
                 name = a['rename']
             text = apply_sections(unit, text, d, name, what)
+            engine = 'verus'
+            if 'assume' in a:
+                # contract-only: the body is NOT verified by Verus; the contract is discharged by the named Kani
+                # harness on the real function (recorded in the evidence).  Signature stays the real one.
+                mt = rp.mask(text)
+                (fs2, fh2, fe2) = next(rp.find_items(text, mt, 'fn', name, (0, None), 0))
+                text = '#[verifier::external_body]\n' + text[:fh2] + '{ unimplemented!() }\n'
+                engine = 'assumed-in-verus:' + a['assume']
             unit.functions.append({'fn': what, 'file': a['file'], 'line': real_line, 'props': props,
-                                   'engine': 'verus'})
+                                   'engine': engine})
             unit.emit(text, {'kind': 'fn', 'fn': what, 'file': a['file'], 'real_line': real_line, 'props': props})
         elif k == 'item':
             src, m = unit.source(a['file'])
@@ -343,8 +370,15 @@ def process(unit_name, tpl_path=None, out_dir=None):
                 region = (h + 1, e - 1)
             (s, h, e) = rp.find_one(src, m, a['kind'], a['name'], region, level, what=what)
             text = rp.strip_comments(src[s:e])
-            text, log = rw.apply(text, ['R6'] + d['uses'], what)
+            text, log = rw.apply(text, ['R6', 'R19'] + d['uses'], what)
             unit.rewrites += log
+            if a['kind'] == 'static':
+                # R20: Verus syntax for an executable static with a known value
+                ms = re.match(r'^\s*(?:pub\s+)?static\s+(\w+)\s*:\s*([^=]+?)\s*=\s*(.+?);\s*$', text, re.S)
+                if not ms:
+                    raise AnchorError(f'{what}: unsupported static form')
+                text = f'exec static {ms.group(1)}: {ms.group(2)} ensures {ms.group(1)} == {ms.group(3)} {{ {ms.group(3)} }}\n'
+                unit.rewrites.append(('R20', what, 1))
             text = apply_sections(unit, text, d, None, what)
             unit.emit(text, {'kind': 'item', 'fn': what, 'file': a['file'], 'props': props})
         elif k == 'macro':
@@ -357,7 +391,7 @@ def process(unit_name, tpl_path=None, out_dir=None):
                 raise AnchorError(f'macro invocation {a["name"]}!({a["args"]}) not found in {inv_file}')
             text = rp.strip_comments(rp.expand_macro(src, m, a['name'], a['args']))
             unit.rewrites.append(('R4', what, 1))
-            text, log = rw.apply(text, ['R6'] + d['uses'], what)
+            text, log = rw.apply(text, ['R6', 'R19'] + d['uses'], what)
             unit.rewrites += log
             text = apply_sections(unit, text, d, a.get('fn'), what)
             unit.functions.append({'fn': what + ('::' + a['fn'] if a.get('fn') else ''), 'file': a['file'],
